@@ -159,6 +159,12 @@ def cases(tier):
         if F.chain_ok(m1, True):
             cs.append(F.ring(2, {0: m1}, menu=(1, 2), end=5, pnode=0))
         cs.append(F.ring(2, {1: m1}, menu=(1, 2), end=5, pnode=0, order=("P", "B", "A")))
+    # delay-to-pull material that is sufficient by the n x smallest-step rule (fixed steps), puller with and without initial pull
+    for steps, n in (([[1], [2]], 3), ([[1], [1]], 2), ([[2], [1]], 2), ([[1], [2]], 4)):
+        for mat in ([["P", n, 0]], [["P", n - 1, 0], ["F", steps[0][0]]], [["P", n, 0.5]]):
+            for pi in (True, False):
+                for order in (("A", "B"), ("B", "A")):
+                    cs.append(F.ring(2, {1: mat}, fixed=steps, menu=(1, 2), end=8, order=order, pull_initial_first=pi))
     # 3-rings, choice mode
     mats3 = materials(6, q)
     for k, m in mats3.items():
@@ -182,8 +188,21 @@ def cases(tier):
     return cs
 
 
+def with_stateless(cs, tier):
+    """every configuration is explored twice: snapshot BFS (deep horizon, state merging) and stateless DFS (each execution one
+    uninterrupted run() call, first choice points enumerated exhaustively) - the latter sees driver state carried across iterations"""
+    out = list(cs)
+    for c in cs:
+        if any(x.get("fixed") for x in c["comps"]):
+            continue
+        m = max(len(x.get("menu", [1])) for x in c["comps"] if x["kind"] == "T")
+        d = (5 if m >= 3 else 7) + (0 if tier == "quick" else 2)
+        out.append(dict(c, stateless=d))
+    return out
+
+
 def run(tier, seed, agg):
-    cs = cases(tier)
+    cs = with_stateless(cases(tier), tier)
     acheck.run_cases(cs, CLAUSES, agg, judge, seed)
     cls = {}
     for c in cs:
